@@ -18,6 +18,14 @@ pub(crate) fn parse_ifdata(
 ) -> Result<(Option<GenericIfData>, bool), ParserError> {
     let mut result = None;
     let mut valid = false;
+    // comments inside IF_DATA are not preserved; an IF_DATA that only contains comments is empty
+    while let Some(A2lToken {
+        ttype: A2lTokenType::Comment,
+        ..
+    }) = parser.peek_token()
+    {
+        parser.get_token(context)?;
+    }
     // is there any content in the IF_DATA?
     if let Some(token) = parser.peek_token() {
         if token.ttype != A2lTokenType::End {
